@@ -413,26 +413,26 @@ func c03PrimitiveTransfer(p *Prog) *RuleResult {
 // unchanged. A child that is not even read on some path to a return has been dropped together with
 // its side effects. Same engine as C04/R2 in "use coverage" mode (c04b.go).
 var c03SimplifyEscapes = map[string]c04Escape{
-	"EAnnotation.Value":  {"has:Flags:CanBeRemovedIfUnusedFlag", "dropped only under the CanBeRemovedIfUnused flag that the parser sets after judging the annotated value"},
-	"EDot.Target":        {"flag:CanBeRemovedIfUnused", "dropped only when the parser classified the property read as side-effect free"},
-	"ECall.Target":       {"flag:CanBeUnwrappedIfUnused", "a /* @__PURE__ */ call: the annotation tells esbuild to ignore the target (documented)"},
-	"ENew.Target":        {"flag:CanBeUnwrappedIfUnused", "a /* @__PURE__ */ construction: the annotation tells esbuild to ignore the target (documented)"},
-	"ETemplate.TagOrNil": {"flag:CanBeUnwrappedIfUnused", "a tagged template marked pure: the tag is ignored as for ECall"},
-	"Property.Key":       {"", "computed keys are kept (ToString via `key + ''`), other keys are not evaluated code"},
+	"EAnnotation.Value":         {"has:Flags:CanBeRemovedIfUnusedFlag", "dropped only under the CanBeRemovedIfUnused flag that the parser sets after judging the annotated value"},
+	"EDot.Target":               {"flag:CanBeRemovedIfUnused", "dropped only when the parser classified the property read as side-effect free"},
+	"ECall.Target":              {"flag:CanBeUnwrappedIfUnused", "a /* @__PURE__ */ call: the annotation tells esbuild to ignore the target (documented)"},
+	"ENew.Target":               {"flag:CanBeUnwrappedIfUnused", "a /* @__PURE__ */ construction: the annotation tells esbuild to ignore the target (documented)"},
+	"ETemplate.TagOrNil":        {"flag:CanBeUnwrappedIfUnused", "a tagged template marked pure: the tag is ignored as for ECall"},
+	"Property.Key":              {"", "computed keys are kept (ToString via `key + ''`), other keys are not evaluated code"},
 	"Property.ClassStaticBlock": {"", "object literal properties are never static blocks"},
 	"Property.Decorators":       {"", "object literal properties cannot carry decorators"},
 	"Property.InitializerOrNil": {"", "only exists in destructuring patterns, which are assignment targets and never simplified as unused values"},
-	"EFunction.Fn":        {"", "an immediately-invoked function is only deleted when its body has no statements (len tests); otherwise creating a closure evaluates nothing"},
-	"EArrow.Args":         {"", "an immediately-invoked arrow is only unwrapped when it has no parameters (len test)"},
-	"EArrow.Body":         {"", "creating a closure evaluates nothing; an immediately-invoked arrow is only unwrapped to its single statement's expression (which is returned) or deleted when the body is empty"},
-	"ESpread.Value":       {"", "a spread element is never dropped: an array containing one is rebuilt from all items, and simplifying the spread element itself returns it unchanged"},
+	"EFunction.Fn":              {"", "an immediately-invoked function is only deleted when its body has no statements (len tests); otherwise creating a closure evaluates nothing"},
+	"EArrow.Args":               {"", "an immediately-invoked arrow is only unwrapped when it has no parameters (len test)"},
+	"EArrow.Body":               {"", "creating a closure evaluates nothing; an immediately-invoked arrow is only unwrapped to its single statement's expression (which is returned) or deleted when the body is empty"},
+	"ESpread.Value":             {"", "a spread element is never dropped: an array containing one is rebuilt from all items, and simplifying the spread element itself returns it unchanged"},
 }
 
 func c03UnusedOperandCoverage(p *Prog) *RuleResult {
 	return runCoverage(p, covConfig{
-		rule:  "C03/R4 unused-operand-coverage",
-		doc:   "SimplifyUnusedExpr returns something other than the original expression only on paths where every evaluated child of the node was passed on (simplified recursively, joined into the result, kept in a rebuilt node) or type-tested away",
-		funcs: []string{"js_ast.(HelperContext).SimplifyUnusedExpr"},
+		rule:   "C03/R4 unused-operand-coverage",
+		doc:    "SimplifyUnusedExpr returns something other than the original expression only on paths where every evaluated child of the node was passed on (simplified recursively, joined into the result, kept in a rebuilt node) or type-tested away",
+		funcs:  []string{"js_ast.(HelperContext).SimplifyUnusedExpr"},
 		judges: map[string][]int{}, escapes: c03SimplifyEscapes, variants: map[string]c04Variant{}, useMode: true, floor: 20,
 	})
 }
